@@ -360,11 +360,26 @@ package apd
 //@   allocates
 //@   ensures (old(val(x)) >= 0 ==> val(z) == div(old(val(x)), pow2(n))) && ret == z && rep(z)
 
-//@ func (*BigInt).Exp
-//@   trusted assumed math/big contract, base-10 instance only
+//@ func math/big.(*Int).Exp
+//@   trusted math/big (x**y, or x**y mod |m| for a non-zero m; 1 for y <= 0 without modulus; nil and z unchanged when y < 0 and x, m are not coprime; operand aliasing is detected on the words); the base-10 clause is the same fact stated with pow10
 //@   nilable m
+//@   assigns *z
+//@   ensures (ret == nil || ret == z) && (ret == nil ==> val(z) == old(val(z)) && m != nil && old(val(m)) != 0 && old(val(y)) < 0)
+//@   ensures (m == nil || old(val(m)) == 0) ==> (ret == z && val(z) == ite(old(val(y)) <= 0, 1, uf_pow(old(val(x)), old(val(y)))))
+//@   ensures (m == nil || old(val(m)) == 0) && old(val(x)) == 10 && old(val(y)) >= 0 ==> val(z) == pow10(old(val(y)))
+//@   ensures m != nil && old(val(m)) != 0 && ret == z ==> val(z) == uf_expmod(old(val(x)), old(val(y)), old(val(m)))
+//@ func (*BigInt).Exp
+//@   layer bigint
+//@   props C16 C05 C06
+//@   nilable m
+//@   requires writable(z) && rep(x) && rep(y) && rep(z) && (m != nil ==> rep(m) && sep(z, m)) && sep(z, x) && sep(z, y)
+//@   sample val(y) <= 5000
 //@   assigns z
+//@   allocates
 //@   ensures (m == nil && old(val(x)) == 10 && old(val(y)) >= 0) ==> (val(z) == pow10(old(val(y))) && ret == z)
+//@   ensures (ret == nil || ret == z) && rep(z) && (ret == nil ==> val(z) == old(val(z)) && m != nil && old(val(m)) != 0 && old(val(y)) < 0)
+//@   ensures (m == nil || old(val(m)) == 0) ==> (ret == z && val(z) == ite(old(val(y)) <= 0, 1, uf_pow(old(val(x)), old(val(y)))))
+//@   ensures m != nil && old(val(m)) != 0 && ret == z ==> val(z) == uf_expmod(old(val(x)), old(val(y)), old(val(m)))
 
 //@ func NewBigInt
 //@   layer bigint
